@@ -38,7 +38,7 @@ func Sites(root *Node) []Site {
 	return out
 }
 
-var EditOps = []string{"del", "dup", "empty", "evil", "evilurl", "pem1"}
+var EditOps = []string{"del", "dup", "empty", "evil", "evilurl", "pem1", "neg", "intmin"}
 
 // EvilURL is an absolute URL that net/url refuses to parse (IPv6 zone without escaping, stray percent sign).
 const EvilURL = "https://[fe80::1%eth0]:8443/saml/100%/acs"
@@ -52,6 +52,10 @@ func evilFor(op string) string {
 		return EvilURL
 	case "pem1":
 		return EvilPEM
+	case "neg":
+		return "-1" // where a number is expected: a negative one
+	case "intmin":
+		return "-9223372036854775808" // the smallest 64-bit integer (negating it overflows)
 	}
 	return EvilValue
 }
@@ -105,7 +109,7 @@ func ApplyEdits(root *Node, edits []Edit) (*Node, []string) {
 				t.elem.Attrs = append(t.elem.Attrs, t.elem.Attrs[idx])
 			case "empty":
 				t.elem.Attrs[idx].Value = ""
-			case "evil", "evilurl", "pem1":
+			case "evil", "evilurl", "pem1", "neg", "intmin":
 				t.elem.Attrs[idx].Value = evilFor(t.op)
 			}
 		default:
@@ -128,7 +132,7 @@ func ApplyEdits(root *Node, edits []Edit) (*Node, []string) {
 				}
 			case "empty":
 				t.elem.Children = nil
-			case "evil", "evilurl", "pem1":
+			case "evil", "evilurl", "pem1", "neg", "intmin":
 				// only leaf elements get hostile text; structure stays
 				leaf := true
 				for _, ch := range t.elem.Children {
